@@ -34,6 +34,8 @@ def main():
         args.remove('--round6'); root = '/tmp/sf'; names = {'a': 'k', 'b': 'l'}
     if '--round7' in args:
         args.remove('--round7'); root = '/tmp/sg'; names = {'a': 'm', 'b': 'n'}
+    if '--round8' in args:
+        args.remove('--round8'); root = '/tmp/sh'; names = {'a': 'o', 'b': 'p'}
     for prop in args:
         src = '%s/%s/out' % (root, prop)
         for v in ('a', 'b'):
